@@ -44,6 +44,46 @@ class PyRaise(Exception):
 # ----------------------------------------------------------------------------- values
 
 
+TOUCHED_FIELDS = set()  # every attribute name read or written on a heap object while a unit runs (by the code under test OR by the unit's harness)
+
+
+class FieldDict(dict):
+    """instance dictionary of a heap object that records which attribute names are used: a name that a harness uses but that occurs nowhere in the
+    repository's source any more means the harness's picture of the object's representation is out of date (pyvc.unit.known_attribute_names)"""
+
+    def __init__(self, *a, **k):
+        dict.__init__(self, *a, **k)
+        TOUCHED_FIELDS.update(self.keys())
+
+    def __setitem__(self, k, v):
+        TOUCHED_FIELDS.add(k)
+        dict.__setitem__(self, k, v)
+
+    def __getitem__(self, k):
+        TOUCHED_FIELDS.add(k)
+        return dict.__getitem__(self, k)
+
+    def __contains__(self, k):
+        TOUCHED_FIELDS.add(k)
+        return dict.__contains__(self, k)
+
+    def get(self, k, d=None):
+        TOUCHED_FIELDS.add(k)
+        return dict.get(self, k, d)
+
+    def update(self, *a, **k):
+        dict.update(self, *a, **k)
+        TOUCHED_FIELDS.update(self.keys())
+
+    def setdefault(self, k, d=None):
+        TOUCHED_FIELDS.add(k)
+        return dict.setdefault(self, k, d)
+
+    def pop(self, k, *d):
+        TOUCHED_FIELDS.add(k)
+        return dict.pop(self, k, *d)
+
+
 class Obj:
     """Heap object with concrete identity and (possibly symbolic) fields."""
 
@@ -51,7 +91,7 @@ class Obj:
 
     def __init__(self, cls, fields=None, tag=None):
         self.cls = cls  # RepoClass or str
-        self.f = dict(fields or {})
+        self.f = FieldDict(fields or {})
         self.tag = tag
 
     @property
@@ -356,6 +396,8 @@ class RepoClass:
                     nm = dn.id if isinstance(dn, ast.Name) else (dn.attr if isinstance(dn, ast.Attribute) else None)
                     if nm in ("property", "cached_property"):
                         kind = "property"
+                        if nm == "cached_property":  # functools.cached_property: computed on first access, then an ordinary instance attribute
+                            clo.cached = True
                     elif nm == "staticmethod":
                         kind = "static"
                     elif nm == "classmethod":
